@@ -539,6 +539,11 @@
 #define SEXP_USE_DEBUG_GC 0
 #endif
 
+/* verification hooks (forced GC schedules, heap audit and traces); off by default */
+#ifndef SEXP_USE_VERIF_HOOKS
+#define SEXP_USE_VERIF_HOOKS 0
+#endif
+
 #ifndef SEXP_USE_TIME_GC
 #if SEXP_USE_DEBUG_GC > 0 || defined(__linux) || SEXP_BSD
 #define SEXP_USE_TIME_GC 1
